@@ -4,8 +4,10 @@
 (* and ARBITRARY position sequences, so that the small constants of the TLC *)
 (* models are not the weak link.  The definitions are copied verbatim from  *)
 (* Decl.tla (Read, Write, Ran, Inj); `tlapm RegisterProofs.tla` checks them.*)
+(* Also: sign extension (C05), array element windows (C03) and range lists  *)
+(* as concatenated windows (C04).                                           *)
 (***************************************************************************)
-EXTENDS Naturals, Sequences, TLAPS
+EXTENDS Integers, Sequences, TLAPS
 
 Ran(p) == {p[k] : k \in 1..Len(p)}
 Inj(p) == \A i, j \in 1..Len(p) : p[i] = p[j] => i = j
@@ -64,4 +66,162 @@ THEOREM DisjointCommute ==
 <1>1. \A k \in v : p[k + 1] \in Ran(p) BY DEF Ran
 <1>2. \A k \in w : q[k + 1] \in Ran(q) BY DEF Ran
 <1> QED BY <1>1, <1>2 DEF Write
+(* C02/C06: writing back what was read changes nothing *)
+THEOREM WriteBackIdentity ==
+  ASSUME NEW r, NEW p \in Seq(Nat)
+  PROVE  Write(r, p, Read(r, p)) = r
+<1>1. ASSUME NEW x \in r, x \in Ran(p) PROVE x \in {p[k + 1] : k \in Read(r, p)}
+  <2>1. PICK k \in 1..Len(p) : p[k] = x BY <1>1 DEF Ran
+  <2>2. k - 1 \in Read(r, p) BY <2>1, <1>1 DEF Read
+  <2>3. (k - 1) + 1 = k OBVIOUS
+  <2> QED BY <2>1, <2>2, <2>3
+<1>2. ASSUME NEW j \in Read(r, p) PROVE p[j + 1] \in r
+  <2>1. PICK k \in 1..Len(p) : p[k] \in r /\ j = k - 1 BY <1>2 DEF Read
+  <2>2. j + 1 = k BY <2>1
+  <2> QED BY <2>1, <2>2
+<1> QED BY <1>1, <1>2 DEF Write
+
+(* C02/C12: repeating a write changes nothing *)
+THEOREM WriteIdempotent ==
+  ASSUME NEW r, NEW p \in Seq(Nat), NEW v \in SUBSET (0..(Len(p) - 1))
+  PROVE  Write(Write(r, p, v), p, v) = Write(r, p, v)
+<1>1. \A k \in v : p[k + 1] \in Ran(p) BY DEF Ran
+<1> QED BY <1>1 DEF Write
+
+(* C05: sign extension to the W-bit return type and truncation back to the n-bit field *)
+SExt(v, n, W) == v \cup (IF (n - 1) \in v THEN n..(W - 1) ELSE {})
+Trunc(v, n) == v \cap (0..(n - 1))
+THEOREM SignExtendTruncate ==
+  ASSUME NEW n \in Nat, NEW W \in Nat, n >= 1, n <= W, NEW v \in SUBSET (0..(n - 1))
+  PROVE  /\ Trunc(SExt(v, n, W), n) = v
+         /\ SExt(v, n, W) \subseteq 0..(W - 1)
+         /\ \A k \in n..(W - 1) : (k \in SExt(v, n, W)) <=> ((n - 1) \in v)
+BY DEF SExt, Trunc
+
+(* C03: element windows of an array field with stride >= width *)
+Elem(lo, w, s, i) == [k \in 1..w |-> lo + i * s + (k - 1)]
+THEOREM ElemInj ==
+  ASSUME NEW lo \in Nat, NEW w \in Nat, NEW s \in Nat, NEW i \in Nat
+  PROVE  Inj(Elem(lo, w, s, i)) /\ Elem(lo, w, s, i) \in Seq(Nat) /\ Len(Elem(lo, w, s, i)) = w
+<1>1. Elem(lo, w, s, i) \in Seq(Nat) /\ Len(Elem(lo, w, s, i)) = w
+  <2>1. i * s \in Nat OBVIOUS
+  <2> QED BY <2>1 DEF Elem
+<1>2. Inj(Elem(lo, w, s, i))
+  <2>1. i * s \in Nat OBVIOUS
+  <2> QED BY <1>1, <2>1 DEF Inj, Elem
+<1> QED BY <1>1, <1>2
+
+THEOREM ElemDisjoint ==
+  ASSUME NEW lo \in Nat, NEW w \in Nat, NEW s \in Nat, s >= w, NEW i \in Nat, NEW j \in Nat, i < j
+  PROVE  Ran(Elem(lo, w, s, i)) \cap Ran(Elem(lo, w, s, j)) = {}
+<1>1. j * s >= i * s + s
+  <2>1. j >= i + 1 OBVIOUS
+  <2>2. j * s >= (i + 1) * s BY <2>1
+  <2>3. (i + 1) * s = i * s + s OBVIOUS
+  <2> QED BY <2>2, <2>3
+<1>2. i * s \in Nat /\ j * s \in Nat OBVIOUS
+<1>3. Len(Elem(lo, w, s, i)) = w /\ Len(Elem(lo, w, s, j)) = w BY DEF Elem
+<1>4. ASSUME NEW a \in 1..w, NEW b \in 1..w PROVE lo + i * s + (a - 1) # lo + j * s + (b - 1)
+  BY <1>1, <1>2
+<1> QED BY <1>3, <1>4 DEF Ran, Elem
+(* C04: a non-contiguous field is the concatenation of its ranges, first range = least significant *)
+Cat(p, q) == [k \in 1..(Len(p) + Len(q)) |-> IF k <= Len(p) THEN p[k] ELSE q[k - Len(p)]]
+Up(v, n) == {k + n : k \in v}
+Lo(v, n) == {k \in v : k < n}
+Hi(v, n) == {k - n : k \in {k \in v : k >= n}}
+
+LEMMA CatShape ==
+  ASSUME NEW p \in Seq(Nat), NEW q \in Seq(Nat)
+  PROVE  /\ Cat(p, q) \in Seq(Nat)
+         /\ Len(Cat(p, q)) = Len(p) + Len(q)
+         /\ \A k \in 1..Len(p) : Cat(p, q)[k] = p[k]
+         /\ \A k \in 1..Len(q) : Cat(p, q)[Len(p) + k] = q[k]
+<1>1. Len(p) \in Nat /\ Len(q) \in Nat OBVIOUS
+<1>2. \A k \in 1..(Len(p) + Len(q)) : (IF k <= Len(p) THEN p[k] ELSE q[k - Len(p)]) \in Nat
+  BY <1>1
+<1>3. Cat(p, q) \in Seq(Nat) /\ Len(Cat(p, q)) = Len(p) + Len(q) BY <1>1, <1>2 DEF Cat
+<1> QED BY <1>1, <1>3 DEF Cat
+
+THEOREM GatherConcat ==
+  ASSUME NEW r, NEW p \in Seq(Nat), NEW q \in Seq(Nat)
+  PROVE  Read(r, Cat(p, q)) = Read(r, p) \cup Up(Read(r, q), Len(p))
+<1> DEFINE c == Cat(p, q)
+<1>0. Len(p) \in Nat /\ Len(q) \in Nat OBVIOUS
+<1>1. /\ Len(c) = Len(p) + Len(q)
+      /\ \A k \in 1..Len(p) : c[k] = p[k]
+      /\ \A k \in 1..Len(q) : c[Len(p) + k] = q[k]
+  BY CatShape
+<1>2. ASSUME NEW x \in Read(r, c) PROVE x \in Read(r, p) \cup Up(Read(r, q), Len(p))
+  <2>1. PICK k \in 1..Len(c) : c[k] \in r /\ x = k - 1 BY <1>2 DEF Read
+  <2>2. CASE k <= Len(p)
+    <3>1. k \in 1..Len(p) /\ p[k] \in r BY <2>1, <2>2, <1>1
+    <3> QED BY <3>1, <2>1 DEF Read
+  <2>3. CASE k > Len(p)
+    <3>1. k - Len(p) \in 1..Len(q) BY <2>1, <2>3, <1>0, <1>1
+    <3>2. c[Len(p) + (k - Len(p))] = q[k - Len(p)] BY <3>1, <1>1
+    <3>3. Len(p) + (k - Len(p)) = k BY <1>0
+    <3>4. q[k - Len(p)] \in r BY <3>2, <3>3, <2>1
+    <3>5. (k - Len(p)) - 1 \in Read(r, q) BY <3>1, <3>4 DEF Read
+    <3>6. x = ((k - Len(p)) - 1) + Len(p) BY <2>1, <1>0
+    <3> QED BY <3>5, <3>6 DEF Up
+  <2> QED BY <2>2, <2>3, <1>0
+<1>3. ASSUME NEW x \in Read(r, p) PROVE x \in Read(r, c)
+  <2>1. PICK k \in 1..Len(p) : p[k] \in r /\ x = k - 1 BY <1>3 DEF Read
+  <2>2. k \in 1..Len(c) /\ c[k] \in r BY <2>1, <1>0, <1>1
+  <2> QED BY <2>1, <2>2 DEF Read
+<1>4. ASSUME NEW x \in Up(Read(r, q), Len(p)) PROVE x \in Read(r, c)
+  <2>1. PICK y \in Read(r, q) : x = y + Len(p) BY <1>4 DEF Up
+  <2>2. PICK k \in 1..Len(q) : q[k] \in r /\ y = k - 1 BY <2>1 DEF Read
+  <2>3. Len(p) + k \in 1..Len(c) /\ c[Len(p) + k] \in r BY <2>2, <1>0, <1>1
+  <2>4. x = (Len(p) + k) - 1 BY <2>1, <2>2, <1>0
+  <2> QED BY <2>3, <2>4 DEF Read
+<1> QED BY <1>2, <1>3, <1>4
+
+THEOREM ScatterConcat ==
+  ASSUME NEW r, NEW p \in Seq(Nat), NEW q \in Seq(Nat), Ran(p) \cap Ran(q) = {},
+         NEW v \in SUBSET (0..(Len(p) + Len(q) - 1))
+  PROVE  Write(r, Cat(p, q), v) = Write(Write(r, p, Lo(v, Len(p))), q, Hi(v, Len(p)))
+<1> DEFINE c == Cat(p, q)
+<1>0. Len(p) \in Nat /\ Len(q) \in Nat OBVIOUS
+<1>1. /\ Len(c) = Len(p) + Len(q)
+      /\ \A k \in 1..Len(p) : c[k] = p[k]
+      /\ \A k \in 1..Len(q) : c[Len(p) + k] = q[k]
+  BY CatShape
+<1>2. Ran(c) = Ran(p) \cup Ran(q)
+  <2>1. ASSUME NEW k \in 1..Len(c) PROVE c[k] \in Ran(p) \cup Ran(q)
+    <3>1. CASE k <= Len(p) BY <3>1, <1>1, <1>0 DEF Ran
+    <3>2. CASE k > Len(p)
+      <4>1. k - Len(p) \in 1..Len(q) BY <3>2, <1>0, <1>1
+      <4>2. Len(p) + (k - Len(p)) = k BY <1>0
+      <4>3. c[k] = q[k - Len(p)] BY <4>1, <4>2, <1>1
+      <4> QED BY <4>1, <4>3 DEF Ran
+    <3> QED BY <3>1, <3>2, <1>0
+  <2>2. ASSUME NEW k \in 1..Len(p) PROVE p[k] \in Ran(c)
+    <3>1. k \in 1..Len(c) /\ c[k] = p[k] BY <1>0, <1>1
+    <3> QED BY <3>1 DEF Ran
+  <2>3. ASSUME NEW k \in 1..Len(q) PROVE q[k] \in Ran(c)
+    <3>1. Len(p) + k \in 1..Len(c) /\ c[Len(p) + k] = q[k] BY <1>0, <1>1
+    <3> QED BY <3>1 DEF Ran
+  <2> QED BY <2>1, <2>2, <2>3 DEF Ran
+<1>3. {c[k + 1] : k \in v} = {p[k + 1] : k \in Lo(v, Len(p))} \cup {q[k + 1] : k \in Hi(v, Len(p))}
+  <2>1. ASSUME NEW k \in v, k < Len(p) PROVE c[k + 1] = p[k + 1] /\ k \in Lo(v, Len(p))
+    BY <2>1, <1>0, <1>1 DEF Lo
+  <2>2. ASSUME NEW k \in v, k >= Len(p) PROVE c[k + 1] = q[(k - Len(p)) + 1] /\ (k - Len(p)) \in Hi(v, Len(p))
+    <3>1. (k - Len(p)) + 1 \in 1..Len(q) BY <2>2, <1>0
+    <3>2. Len(p) + ((k - Len(p)) + 1) = k + 1 BY <1>0
+    <3>3. c[k + 1] = q[(k - Len(p)) + 1] BY <3>1, <3>2, <1>1
+    <3> QED BY <3>3, <2>2 DEF Hi
+  <2>3. ASSUME NEW k \in Lo(v, Len(p)) PROVE k \in v /\ c[k + 1] = p[k + 1]
+    BY <2>3, <1>0, <1>1 DEF Lo
+  <2>4. ASSUME NEW j \in Hi(v, Len(p)) PROVE \E k \in v : c[k + 1] = q[j + 1]
+    <3>1. PICK k \in v : k >= Len(p) /\ j = k - Len(p) BY <2>4 DEF Hi
+    <3> QED BY <3>1, <2>2
+  <2>5. \A k \in v : k < Len(p) \/ k >= Len(p) BY <1>0
+  <2> QED BY <2>1, <2>2, <2>3, <2>4, <2>5
+<1>4. \A k \in Lo(v, Len(p)) : p[k + 1] \in Ran(p) BY <1>0 DEF Lo, Ran
+<1>5. \A j \in Hi(v, Len(p)) : q[j + 1] \in Ran(q)
+  <2>1. ASSUME NEW j \in Hi(v, Len(p)) PROVE j + 1 \in 1..Len(q) BY <1>0 DEF Hi
+  <2> QED BY <2>1 DEF Ran
+<1> QED BY <1>2, <1>3, <1>4, <1>5 DEF Write
+
 =============================================================================
